@@ -10,7 +10,8 @@ Definition w_es : list entry := [((0, 0), false); ((0, 5), false); ((0, 7), fals
 (* DESIGN.md section 4 row 12: breakpoint on the rule; run, receive the first event, cont, run again.
    The parsing thread has passed the flag load of its second entry when run() raises the flag. *)
 Definition w1_cmds : list cmd := [CRun w_es OEof; CRecv; CCont; CRun w_es OEof].
-Definition w1_sched : list tid := [C;C;C; P;P;P;P; C; C;C;C; P;P; C;C;C;C; P;P;P;P].
+Definition w1_sched : list tid :=
+  [C;C;C; P;P;P;P;P; C; C;C;C; P;P; C;C;C;C; P;P;P;P;P].
 
 Lemma rerun_hangs_literal :
   exists s, exec (literal 1) (init w1_cmds [0]) w1_sched = Some s /\
@@ -27,7 +28,8 @@ Proof. eexists. vm_compute. split; reflexivity. Qed.
    events between run()'s flag load and its flag store and blocks in send; no 3-line repair of the
    final send helps.  Outside the class for which the repaired code is proved (disciplined = false). *)
 Definition w2_cmds : list cmd := [CRun w_es OEof; CRecv; CCont; CCont; CRun w_es OEof].
-Definition w2_sched : list tid := [C;C;C; P;P;P;P; C; C;C;C; P; C;C;C; C; P;P;P;P;P;P; C;C;C].
+Definition w2_sched : list tid :=
+  [C;C;C; P;P;P;P;P; C; C;C;C; P; C;C;C; C; P;P;P;P;P;P;P;P; C;C;C].
 
 Lemma rerun_hangs_repaired_undisciplined :
   exists s, exec (repaired 1) (init w2_cmds [0]) w2_sched = Some s /\
@@ -36,7 +38,8 @@ Proof. eexists. vm_compute. repeat split; reflexivity. Qed.
 
 (* code as it is: run, receive, run again delivers the breakpoint event AND the abort error: 2 > 1 + 0 *)
 Definition w3_cmds : list cmd := [CRun w_es OEof; CRecv; CRun w_es OEof].
-Definition w3_sched : list tid := [C;C;C; P;P;P;P; C; C;C;C;C; P;P;P;P;P].
+Definition w3_sched : list tid :=
+  [C;C;C; P;P;P;P;P; C; C;C;C;C; P;P;P;P;P].
 
 Lemma count_exceeded_literal :
   exists s, exec (literal 1) (init w3_cmds [0]) w3_sched = Some s /\
@@ -46,7 +49,8 @@ Proof. eexists. vm_compute. repeat split; reflexivity. Qed.
 (* what a spurious wake-up (std documents that park() may return without unpark) would allow:
    a second breakpoint event is delivered although nobody continued *)
 Definition w4_cmds : list cmd := [CRun w_es OEof].
-Definition w4_sched : list tid := [C;C;C; P;P;P;P; P;P;P;P].
+Definition w4_sched : list tid :=
+  [C;C;C; P;P;P;P;P; P;P;P;P;P].
 
 Lemma spurious_wakeup_breaks_quiet :
   exists s, exec (spurious 2) (init w4_cmds [0]) w4_sched = Some s /\
@@ -58,7 +62,7 @@ Proof. eexists. vm_compute. repeat split; reflexivity. Qed.
 Definition nv_es : list entry := [((3, 0), false); ((2, 0), false); ((1, 0), false); ((2, 2), false); ((0, 2), false)].
 Definition nv_cmds : list cmd := [CRun nv_es OEof; CRecv; CCont; CRecv; CCont; CRecv].
 Definition nv_sched : list tid :=
-  [C;C;C; P;P;P;P;P;P; C; C;C;C; P;P;P;P;P;P; C; C;C;C; P;P;P;P;P;P;P; C].
+  [C;C;C; P;P;P;P;P;P;P;P; C; C;C;C; P;P;P;P;P;P;P;P; C; C;C;C; P;P;P;P;P;P;P;P; C].
 
 Lemma full_flow_example :
   exists s, exec (repaired 1) (init nv_cmds [2]) nv_sched = Some s /\
@@ -68,6 +72,6 @@ Proof. eexists. vm_compute. repeat split; reflexivity. Qed.
 
 (* non-vacuity of the progress theorem: a disciplined drained re-run that is sitting in join *)
 Lemma rerun_join_example :
-  exists s, exec (repaired 1) (init w1_cmds [0]) [C;C;C; P;P;P;P; C; C;C;C; P;P; C;C;C;C] = Some s /\
+  exists s, exec (repaired 1) (init w1_cmds [0]) [C;C;C; P;P;P;P;P; C; C;C;C; P;P; C;C;C;C] = Some s /\
             in_join_drained s = true /\ disciplined s = true /\ enabled (repaired 1) s P = true.
 Proof. eexists. vm_compute. repeat split; reflexivity. Qed.
